@@ -243,11 +243,27 @@ def run_case(c, d):
     if d['norm'] == 'coeff' and (not np.any(np.asarray(x)) or (y is not None and not np.any(np.asarray(y)))):
         c.discard('coeff-all-zero')
         return
+    x0 = np.array(x, copy=True)
+    y0 = None if y is None else np.array(y, copy=True)
     try:
         res = fn(x, y, maxlags=d['maxlags'], norm=d['norm'])
     except Exception as exc:
         c.exception(d['fn'], exc, feats)
         return
+    # the caller's sequences are still the caller's sequences (same length, same samples)
+    same = np.shape(x) == x0.shape and np.array_equal(np.asarray(x), x0) and \
+        (y is None or (np.shape(y) == y0.shape and np.array_equal(np.asarray(y), y0)))
+    c.require('%s:inputs-not-modified' % d['fn'], bool(same), {'len_x_before': int(x0.shape[0]), 'len_x_after': int(np.shape(x)[0])}, feats)
+    # a view of a longer record is an ordinary input too
+    if not d.get('list') and d['N'] >= 2 and d.get('i', 0) % 3 == 0:
+        big = np.concatenate([x0, x0])
+        try:
+            res_v = fn(big[:d['N']], y0, maxlags=d['maxlags'], norm=d['norm'])
+            a = np.asarray(res_v[0] if d['fn'] == 'xcorr' else res_v)
+            b = np.asarray(res[0] if d['fn'] == 'xcorr' else res)
+            c.compare('%s:same-result-for-a-view-of-a-longer-array' % d['fn'], a, b, 0.0, feats, scale=1.0)
+        except Exception as exc:
+            c.exception(d['fn'], exc, dict(feats, input='view'))
     # paired: the two back ends agree on non-negative lags (same definition)
     if d['fn'] == 'xcorr' and (d['norm'] != 'coeff' or y is None):
         ml = NN - 1 if d['maxlags'] is None else d['maxlags']
